@@ -35,7 +35,11 @@ class CTRLInterface(UDPLink):
 		# Read data from socket (the L1 side may send commands up to 1024
 		# bytes long, e.g. trxcon's TRXC_BUF_SIZE for SETFH with up to 64 channels)
 		data, remote = self.sock.recvfrom(1024)
-		data = data.decode()
+		try:
+			data = data.decode()
+		except UnicodeDecodeError:
+			log.error("Non-text data on TRXC interface")
+			return
 
 		if not self.verify_req(data):
 			log.error("Wrong data on TRXC interface")
@@ -43,7 +47,12 @@ class CTRLInterface(UDPLink):
 
 		# Attempt to parse a command
 		request = self.prepare_req(data)
-		rc = self.parse_cmd(request)
+		try:
+			rc = self.parse_cmd(request)
+		except ValueError as e:
+			# e.g. a non-numeric argument: respond with an error status
+			log.error("Malformed TRXC command '%s': %s" % (request[0], e))
+			rc = -1
 
 		if type(rc) is tuple:
 			self.send_response(request, remote, rc[0], rc[1])
